@@ -134,7 +134,8 @@ Next ==
                  \/ \E i \in 0..Len0(x) : Do([op |-> "insert_wrong", v |-> x, i |-> i, src |-> src, ty |-> ty])
             \/ \E i \in 0..(Len0(x) - 1), side \in {"first", "second"} : Do([op |-> "swap_wrong", v |-> x, i |-> i, side |-> side, ty |-> ty])
             \/ \E s0 \in 0..Len0(x), n \in 1..2 : \E j \in 1..n, e0 \in {e1 \in s0..Len0(x) : e1 <= s0 + 1} :
-                 Do([op |-> "splice_wrong", v |-> x, s |-> s0, e |-> e0, n |-> n, j |-> j, ty |-> ty])
+                 \/ Do([op |-> "splice_wrong", v |-> x, s |-> s0, e |-> e0, n |-> n, j |-> j, ty |-> ty, src |-> "raw"])
+                 \/ j = 1 /\ Do([op |-> "splice_wrong", v |-> x, s |-> s0, e |-> e0, n |-> n, j |-> j, ty |-> ty, src |-> "wrapper"])
        \/ "wrong" \in Alpha /\ \E how \in {"push", "insert"} :
             \/ Do([op |-> "cross_wrong", v |-> x, dir |-> "into_v", how |-> how])
             \/ Len0(x) > 0 /\ Do([op |-> "cross_wrong", v |-> x, dir |-> "from_v", how |-> how])
